@@ -4298,7 +4298,7 @@ class UUID(TraitType):
         try:
             # Construct the UUID from a string
             return uuid.UUID(value)
-        except ValueError:
+        except (AttributeError, TypeError, ValueError):
             msg = ("The '{}' trait of '{}' expects an RFC 4122-compatible "
                    "UUID value, but '{}' was given")
             raise TraitError(msg.format(name, type(object).__name__, value))
